@@ -41,13 +41,19 @@ Utf8Len(s) == IF s = <<>> THEN 0 ELSE Utf8Len1(Head(s)) + Utf8Len(Tail(s))
 
 (* regex source text of an atom sequence (the harness renders the same way) *)
 IsAlnumCp(c) == (c >= 48 /\ c <= 57) \/ (c >= 65 /\ c <= 90) \/ (c >= 97 /\ c <= 122)
-AtomText(a) ==
+ClsCp(n) == CASE n = "d" -> 100 [] n = "D" -> 68 [] n = "s" -> 115 [] n = "S" -> 83 [] n = "w" -> 119 [] n = "W" -> 87
+RepText(a) == IF "rep" \notin DOMAIN a THEN <<>>
+              ELSE CASE a.rep = "+" -> <<43>> [] a.rep = "?" -> <<63>> [] a.rep = "*" -> <<42>> [] OTHER -> <<>>
+AtomBody(a) ==
   CASE a.t = "c" -> IF IsAlnumCp(a.c) \/ a.c = 32 \/ a.c >= 128 THEN <<a.c>> ELSE <<92, a.c>>
     [] a.t = "dot" -> <<46>>
     [] a.t = "star" -> <<46, 42>>
     [] a.t = "lazy" -> <<46, 42, 63>>
     [] a.t = "bol" -> <<94>>
     [] a.t = "eol" -> <<36>>
+    [] a.t = "cls" -> <<92, ClsCp(a.n)>>
+    [] a.t = "set" -> <<91>> \o (IF a.neg THEN <<94>> ELSE <<>>) \o a.cs \o <<93>>
+AtomText(a) == AtomBody(a) \o RepText(a)
 RECURSIVE ReText(_)
 ReText(r) == IF r = <<>> THEN <<>> ELSE AtomText(Head(r)) \o ReText(Tail(r))
 
